@@ -37,9 +37,11 @@
 //
 // Preconditions / tolerances (the property leaves these open; DESIGN.md C05):
 //   - inside the encrypted part, the token that closes the file is followed by
-//     exactly one white-space byte, which is the last encrypted byte (every
-//     real font does this; with none the scanner has already pulled one
-//     ciphertext byte through the cipher when decryption stops);
+//     exactly one delimiter byte, which is the last encrypted byte (every
+//     real font does this, with a white-space byte; with none the scanner has
+//     already pulled one ciphertext byte through the cipher when decryption
+//     stops).  Family closefile-followed-by-a-delimiter covers the other
+//     delimiters: the byte is part of the program;
 //   - "legal prefix": hex form <=> the first four ciphertext bytes are all
 //     hex digits; binary form: first byte not blank/tab/CR/LF and at least one
 //     of the first four not a hex digit (Type 1 book 7.2);
@@ -1096,6 +1098,73 @@ func restoreBody(c *mc.Ctx, item int) mc.Verdict {
 	return v
 }
 
+// delimiterBody: the token `closefile` may be ended by any delimiter, not only
+// by white space.  The delimiter is the last encrypted byte (the scanner has to
+// read and decrypt it to see where the token ends) and it is part of the
+// program: the clear text that follows continues the token it starts.
+var closeDelims = []struct{ delim, clear, ref string }{
+	{"/", "nm 5 def nm", "/nm 5 def nm"},
+	{"/", " 6", "/ 6"}, // the empty name
+	{"[", " 1 2 ] length", "[ 1 2 ] length"},
+	{"[", "]", "[]"},
+	{"(", "abc) length", "(abc) length"},
+	{"(", ")", "()"},
+	{"<", "4142> length", "<4142> length"},
+	{"<", "< /k 1 >> /k get", "<< /k 1 >> /k get"},
+	{"<", "~87cURD]i~> length", "<~87cURD]i~> length"},
+	{"{", " 1 2 } exec", "{ 1 2 } exec"},
+	{"{", "}", "{}"},
+	{"%", " rest of the comment\n 9", "% rest of the comment\n 9"},
+	{"%", "%Key: value\n 9", "%%Key: value\n 9"},
+	{" ", "7", " 7"},
+	{"\n", "8 ", "\n8 "},
+	{"\x00", "8 ", " 8 "},
+	{"\f", "8 ", " 8 "},
+}
+var closeBodies = []string{"/a 1 def ", "1 2 3 ", "", "/p { currentfile closefile } def "}
+
+func delimiterBody(c *mc.Ctx, item int) mc.Verdict {
+	nd := len(closeDelims)
+	d := closeDelims[item%nd]
+	cont := (item / nd) % 4
+	bi := item / nd / 4
+	body := closeBodies[bi]
+	closer := "mark currentfile closefile"
+	if bi == 3 {
+		closer = "mark p"
+	}
+	p := plaintext{name: "closefile" + d.delim, enc: body + closer + d.delim}
+	prog := append(buildSection(p, cont, "\n", defaultBinPrefix, nil), d.clear...)
+	ref := "systemdict begin " + body + "mark end " + d.ref
+	describe := func() string {
+		return fmt.Sprintf("encrypted part `%s` (%s) followed by the clear text %q; clear-text equivalent `%s`: %s", p.enc, contNames[cont], d.clear, ref, show(prog))
+	}
+	ri := postscript.NewInterpreter()
+	rerr := ri.ExecuteString(ref)
+	want := snapshot(ri, rerr)
+	intp := postscript.NewInterpreter()
+	err := intp.Execute(bytes.NewReader(prog))
+	c.Step()
+	got := snapshot(intp, err)
+	if strings.HasPrefix(want, "ERROR") {
+		return mc.Fail("C05:closefile-delimiter:clear-text-run-fails", want[:min(len(want), 200)]+" | "+describe())
+	}
+	if got != want {
+		kind := "state-differs"
+		if strings.HasPrefix(got, "ERROR") {
+			kind = "eexec-run-error"
+		}
+		v := mc.Fail("C05:closefile-delimiter:"+kind, diffAt(got, want)+" | "+describe())
+		v.Render = describe()
+		return v
+	}
+	v := mc.Pass(contNames[cont], true)
+	if c.Render() {
+		v.Render = describe()
+	}
+	return v
+}
+
 // insideBody: "with the system dictionary pushed on the dictionary stack" — the
 // dictionary stack INSIDE the section is the one before `eexec` plus systemdict,
 // whatever stood on top before (systemdict itself, userdict, the same
@@ -1281,6 +1350,8 @@ func main() {
 				Rule: "dictionaries opened before `eexec` (none; one or two fresh ones; systemdict; userdict; a fresh one then systemdict; systemdict twice; the same fresh one twice; systemdict then a fresh one) x encrypted part that closes 0..3 dictionaries, then opens none / a new one / an old one, then defines a key x 4 containers; a simulation of the dictionary stack (the one before eexec plus systemdict) says which dictionary receives the definition: afterwards the key must be known there and nowhere else, and the stack depth restored; cases that would close userdict are skipped; non-trivial = all others"})
 			fams = append(fams, mc.Family{Name: "dictstack-restore", Items: len(restorePlains) * 4 * len(restoreOuters), Body: restoreBody, Budget: budget,
 				Rule: "item = (what the encrypted part does to the dictionary stack: nothing, 1..3 extra `end`, 1..2 extra `begin`, mixtures) x container (binary, hex lower/upper/mixed) x 0, 1, 2, 15..18 extra dictionaries open when eexec is entered (the last ones reach the limit of 20: the section must overflow exactly where the clear-text run does); after the section the dictionary stack must be exactly the one before it (depth and contents: names defined in the outer dictionaries resolve again); non-trivial = every case"})
+			fams = append(fams, mc.Family{Name: "closefile-followed-by-a-delimiter", Items: len(closeDelims) * 4 * len(closeBodies), Body: delimiterBody, Budget: budget,
+				Rule: fmt.Sprintf("item = the byte that ends the token `closefile` (last encrypted byte) and the clear text continuing from it, %d cases: / [ ( < {  %% starting a name, the empty name, arrays, strings, hexadecimal and ASCII85 strings, a dictionary, procedures, a comment and a DSC comment, and the white-space bytes SP LF NUL FF; x container {binary, hex lower / upper / mixed} x 4 encrypted bodies (closefile also inside a procedure); the state must equal that of `systemdict begin body mark end` followed by the delimiter and the clear text; non-trivial = all", len(closeDelims))})
 			fams = append(fams, mc.Family{Name: "prefix-byte-sweep", Items: 4 * 256, Body: prefixSweepBody, Budget: budget,
 				Rule: "item = (position 0..3, byte value 0..255): binary section whose ciphertext prefix is three hex digits and that byte; x 3 plaintexts x trailers; differential against the clear-text run; non-trivial = the prefix is legal for the binary form"})
 			fams = append(fams, mc.Family{Name: "two-sections-in-one-stream", Items: len(plaintexts) * len(plaintexts) * 16, Body: twoSectionsBody, Budget: budget,
